@@ -291,6 +291,7 @@ pub struct World {
     pub mix: [u64; 6],
     /// probability (in tenths) that the allocator fails somewhere during a map call
     pub fail10: u64,
+    pub rix: i64,
 }
 
 /// execute one operation on the real mapper and record it
@@ -401,6 +402,8 @@ pub fn exec<M: AllMapper>(m: &mut M, w: &mut World, op: &Op, out: &mut Out) -> &
     // raw effects
     crate::trap::MODE.fetch_and(!crate::trap::STRAY, std::sync::atomic::Ordering::SeqCst);
     let faults = crate::trap::take_strays();
+    let fills = crate::trap::take_mmu();
+    let _ = crate::cpu::drain(); // mov-from-cr3 etc. are not part of these events
     let allocated: Vec<u64> = al.log.iter().filter_map(|x| *x).collect();
     let (diff, touched, strays) = with(|sh| {
         let d = sh.pm.diff();
@@ -410,8 +413,24 @@ pub fn exec<M: AllMapper>(m: &mut M, w: &mut World, op: &Op, out: &mut Out) -> &
         for (a, _rip) in &faults {
             strays.push(a.wrapping_sub(sh.offset) & !0xfff);
         }
+        let mut t = t;
+        for (_pg, fr, kind) in &fills {
+            if *kind == 0 {
+                t.push(*fr);
+            } else {
+                strays.push(*fr);
+            }
+        }
         (d, t, strays)
     });
+    let mut mj = String::from("[");
+    for (k, (pg, fr, kind)) in fills.iter().enumerate() {
+        if k > 0 {
+            mj.push(',');
+        }
+        mj.push_str(&format!("[{},{},{}]", limbs(*pg), limbs(*fr), kind));
+    }
+    mj.push(']');
     let mut dj = String::from("[");
     let mut first = true;
     for (pa, i, _o, n) in &diff {
@@ -458,7 +477,8 @@ pub fn exec<M: AllMapper>(m: &mut M, w: &mut World, op: &Op, out: &mut Out) -> &
         .raw("newtabs", &nj)
         .words("touched", &tv)
         .words("stray", &strays)
-        .raw("dealloc", &dl);
+        .raw("dealloc", &dl)
+        .raw("mmu", &mj);
     out.emit(e);
     // bookkeeping of the pool: allocated frames leave it, freed frames come back (re-junked)
     w.free.retain(|f| !allocated.contains(f));
@@ -598,6 +618,9 @@ pub fn random_op(r: &mut Rng, u: &Universe, w: &World, last: &Option<Op>, live: 
         }
     }
     let mx = w.mix;
+    if w.rix >= 0 && ((page >> 39) & 0x1ff) as i64 == w.rix {
+        page = pick_page(r, u, s);
+    }
     match roll {
         x if x < mx[0] => {
             let how = *r.pick(&[0u8, 0, 0, 1, 1, 2]);
@@ -698,7 +721,46 @@ pub fn setup(r: &mut Rng, kind: &str) -> Setup {
         }
     }
     let root = if offset == 0 && kind == "offset" { 0x7100_0f00_0000 } else { root };
-    Setup { kind: kind.to_string(), root, rix: -1, pool, offset }
+    let rix = if kind == "recursive" { pick_recursive_index(r) } else { -1 };
+    Setup { kind: kind.to_string(), root, rix, pool, offset }
+}
+
+/// a recursive index whose 512 GiB region is completely unused in this process
+fn pick_recursive_index(r: &mut Rng) -> i64 {
+    let maps = std::fs::read_to_string("/proc/self/maps").unwrap_or_default();
+    let mut used = [false; 256];
+    for line in maps.lines() {
+        if let Some((range, _)) = line.split_once(' ') {
+            if let Some((a, b)) = range.split_once('-') {
+                if let (Ok(a), Ok(b)) = (u64::from_str_radix(a, 16), u64::from_str_radix(b, 16)) {
+                    let (lo, hi) = (a >> 39, (b.saturating_sub(1)) >> 39);
+                    for s in lo..=hi.min(255) {
+                        used[s as usize] = true;
+                    }
+                }
+            }
+        }
+    }
+    // keep clear of the offset windows other behaviours use and of slot 0 (null page)
+    for s in [0usize, 32, 70, 128, 226, 227] {
+        used[s] = true;
+    }
+    let cands: Vec<i64> = [1i64, 2, 3, 5, 17, 42, 100, 127, 129, 200, 254, 255, 77, 150]
+        .iter()
+        .copied()
+        .filter(|&c| !used[c as usize])
+        .collect();
+    let extra = r.below(254) as i64 + 1;
+    if !used[extra as usize] && r.chance(1, 3) {
+        extra
+    } else {
+        *r.pick(&cands)
+    }
+}
+
+pub fn rec_va(rix: i64) -> u64 {
+    let r = rix as u64;
+    (r << 39) | (r << 30) | (r << 21) | (r << 12)
 }
 
 pub fn install(st: &Setup) -> bool {
@@ -735,6 +797,22 @@ pub fn install(st: &Setup) -> bool {
         for &f in &st.pool {
             sh.pm.fill(f, |i| junk(f, i));
         }
+        // software MMU view of the arena
+        use std::sync::atomic::Ordering::SeqCst;
+        for (i, fr) in crate::trap::MMU_FRAME.iter().enumerate() {
+            fr.store(if i < sh.pm.rev.len() { sh.pm.rev[i] } else { u64::MAX }, SeqCst);
+        }
+        crate::trap::MMU_FD.store(sh.pm.fd as u64, SeqCst);
+        crate::trap::MMU_CR3.store(st.root, SeqCst);
+        crate::cpu::CR[3].store(st.root, SeqCst);
+        if st.rix >= 0 {
+            sh.pm.write(st.root, st.rix as usize, st.root | 3);
+            crate::trap::MMU_RIX.store(st.rix as u64, SeqCst);
+            crate::trap::MODE.fetch_or(crate::trap::MMU, SeqCst);
+        } else {
+            crate::trap::MMU_RIX.store(u64::MAX, SeqCst);
+            crate::trap::MODE.fetch_and(!crate::trap::MMU, SeqCst);
+        }
         // the scratch page looks like junk too
         for (i, x) in sh.scratch.iter_mut().enumerate() {
             *x = junk(0xdead_0000, i);
@@ -756,7 +834,7 @@ fn reset_event(out: &mut Out, st: &Setup) {
 
 fn run_behaviour<M: AllMapper>(m: &mut M, st: &Setup, r: &mut Rng, len: usize, out: &mut Out, mix: &str) {
     let (mixv, fail10) = mix_of(mix);
-    let mut w = World { free: st.pool.clone(), kind: st.kind.clone(), mix: mixv, fail10 };
+    let mut w = World { free: st.pool.clone(), kind: st.kind.clone(), mix: mixv, fail10, rix: st.rix };
     let mut tf = st.pool.clone();
     tf.push(st.root);
     // with the identity window (offset 0) physical address 0 cannot be backed by a junk page
@@ -803,6 +881,15 @@ fn run_behaviour<M: AllMapper>(m: &mut M, st: &Setup, r: &mut Rng, len: usize, o
     }
 }
 
+/// recursive index as printed by the mapper's Debug impl (the field is private)
+pub fn debug_rix(dbg: &str) -> i64 {
+    dbg.rsplit("PageTableIndex(")
+        .next()
+        .and_then(|t| t.split(')').next())
+        .and_then(|n| n.trim().parse::<i64>().ok())
+        .unwrap_or(-2)
+}
+
 pub fn mix_of(mix: &str) -> ([u64; 6], u64) {
     match mix {
         // many failing calls and allocator failures (C02)
@@ -840,8 +927,133 @@ pub fn run_random(out: &mut Out, seed: u64, n: u64, kinds: &[&str], mix: &str) {
                 let mut m = unsafe { OffsetPageTable::new(&mut *wp, VirtAddr::new(st.offset)) };
                 run_behaviour(&mut m, &st, &mut r, len, out, mix);
             }
+            "recursive" => {
+                use x86_64::structures::paging::RecursivePageTable;
+                let va = rec_va(st.rix);
+                let made = catch(|| RecursivePageTable::new(unsafe { &mut *(va as *mut PageTable) }));
+                let fills = crate::trap::take_mmu();
+                let ins = crate::cpu::drain();
+                let (k, got) = match &made {
+                    Some(Ok(m)) => ("Ok", debug_rix(&format!("{:?}", m))),
+                    Some(Err(x86_64::structures::paging::mapper::InvalidPageTable::NotRecursive)) => ("NotRecursive", -1),
+                    Some(Err(x86_64::structures::paging::mapper::InvalidPageTable::NotActive)) => ("NotActive", -1),
+                    None => ("panic", -1),
+                };
+                out.emit(
+                    Ev::new("rpt_new")
+                        .w("addr", va)
+                        .w("cr3", st.root)
+                        .w("slot", st.root | 3)
+                        .str("k", k)
+                        .n("got", got)
+                        .n("fills", fills.len() as i64)
+                        .raw("instrs", &crate::cpu::instrs_json(&ins)),
+                );
+                if let Some(Ok(mut m)) = made {
+                    run_behaviour(&mut m, &st, &mut r, len, out, mix);
+                }
+            }
             _ => {}
         }
         events += out.count - before;
+    }
+}
+
+
+// ------------------------------------------------------------------------------------------
+// C20: RecursivePageTable::new on recursive and near-recursive table addresses
+
+pub fn run_rpt_new(out: &mut Out, seed: u64, n: u64) {
+    use std::sync::atomic::Ordering::SeqCst;
+    use x86_64::structures::paging::mapper::InvalidPageTable;
+    use x86_64::structures::paging::RecursivePageTable;
+    let mut r = Rng::new(seed);
+    crate::trap::MODE.fetch_and(!crate::trap::MMU, SeqCst);
+    let mut done = 0u64;
+    let frames: [u64; 5] = [0x1000, 0x7fff_f000, 0x000f_ffff_ffff_f000, 0x1234_5678_9000, 0];
+    while done < n {
+        let rix = pick_recursive_index(&mut r) as u64;
+        // the four indices: all equal, or one position differing (by one, or arbitrary)
+        let mut idx = [rix; 4];
+        let variant = r.below(6);
+        if (1..=4).contains(&variant) {
+            let pos = (variant - 1) as usize;
+            let alt = if r.chance(1, 2) { rix ^ 1 } else { r.below(256) };
+            idx[pos] = if alt == 0 && pos == 0 { 1 } else { alt };
+        }
+        let va = (idx[0] << 39) | (idx[1] << 30) | (idx[2] << 21) | (idx[3] << 12);
+        if idx[0] >= 256 || va < 0x10000 {
+            continue;
+        }
+        let p = unsafe {
+            libc::mmap(
+                va as *mut libc::c_void,
+                4096,
+                libc::PROT_READ | libc::PROT_WRITE,
+                libc::MAP_PRIVATE | libc::MAP_ANONYMOUS | libc::MAP_FIXED_NOREPLACE,
+                -1,
+                0,
+            )
+        };
+        if p as u64 != va {
+            if p != libc::MAP_FAILED {
+                unsafe { libc::munmap(p, 4096) };
+            }
+            continue;
+        }
+        let frame = *r.pick(&frames);
+        for _ in 0..12 {
+            let cr3 = match r.below(5) {
+                0 => frame,
+                1 => frame | 0x18,
+                2 => frame | 0xabc,
+                3 => *r.pick(&frames),
+                _ => frame | 0xfff,
+            };
+            let slot = match r.below(9) {
+                0 => frame | 1,
+                1 => frame | 3,
+                2 => frame | 0x8000_0000_0000_0063,
+                3 => frame, // right frame, not present
+                4 => 1,     // present bit only
+                5 => 0,
+                6 => *r.pick(&frames) | 3,
+                7 => frame | 0x83,
+                _ => (frame ^ 0x1000) | 3,
+            };
+            let t = va as *mut u64;
+            for i in 0..512 {
+                unsafe { *t.add(i) = 0 };
+            }
+            // the slot the constructor must look at is the level-4 index of the address; put
+            // decoys elsewhere
+            unsafe {
+                *t.add(idx[0] as usize) = slot;
+                if idx[3] != idx[0] {
+                    *t.add(idx[3] as usize) = frame | 3;
+                }
+            }
+            crate::cpu::CR[3].store(cr3, SeqCst);
+            let made = catch(|| RecursivePageTable::new(unsafe { &mut *(va as *mut PageTable) }));
+            let ins = crate::cpu::drain();
+            let (k, got) = match &made {
+                Some(Ok(m)) => ("Ok", debug_rix(&format!("{:?}", m))),
+                Some(Err(InvalidPageTable::NotRecursive)) => ("NotRecursive", -1),
+                Some(Err(InvalidPageTable::NotActive)) => ("NotActive", -1),
+                None => ("panic", -1),
+            };
+            out.emit(
+                Ev::new("rpt_new")
+                    .w("addr", va)
+                    .w("cr3", cr3)
+                    .w("slot", slot)
+                    .str("k", k)
+                    .n("got", got)
+                    .n("fills", 0)
+                    .raw("instrs", &crate::cpu::instrs_json(&ins)),
+            );
+            done += 1;
+        }
+        unsafe { libc::munmap(va as *mut libc::c_void, 4096) };
     }
 }
